@@ -13,7 +13,8 @@ Final        == Complete
 ExplicitWait == \/ wf.status \in {"BUFFERED", "PAUSED"}
                 \/ \E s \in DOMAIN st : st[s].status \in {"SUSPENDED", "PAUSED"}
 
-AllowedFinal(s) == IF s \in Racy THEN {Ideal.st[s], "CANCELED", "NOT_STARTED"}
+AllowedFinal(s) == IF P.msref[s] # "" THEN {Ideal.st[s], "SKIPPED", "CANCELED", "NOT_STARTED"}   \* enabled or expired: depends on the schedule
+                   ELSE IF s \in Racy THEN {Ideal.st[s], "CANCELED", "NOT_STARTED"}
                    ELSE IF Ref.st[s] = "ABSENT" THEN {"NOT_STARTED"}     \* a synthetic child the reference run never created
                    ELSE {Ref.st[s]}
 OutcomeEq == /\ wf.status = Ref.wf
